@@ -285,15 +285,16 @@ def check_message(ctx, m, enc, spec, sigctx, ids, want_encode=True):
                             'encoding from the %s conversion gives different bytes than from flat JSON' % name, spec)
 
 
-def cli_roundtrip(ctx, b, spec, scratch, tag):
+def cli_roundtrip(ctx, b, spec, scratch, tag, prefix=()):
     from mon.cli import run_cli
+    prefix = list(prefix)
     src = os.path.join(scratch, 'in_%s.bufr' % tag)
     with open(src, 'wb') as f:
         f.write(b)
     outs = {}
     for flags in ([], ['-j'], ['-a'], ['-a', '-j']):
         name = ''.join(flags) or 'flat-text'
-        so, se, exc, code = run_cli(['decode'] + flags + [src])
+        so, se, exc, code = run_cli(prefix + ['decode'] + flags + [src])
         if exc is not None or se.strip():
             ctx.violate('cli-decode-fails/%s' % name, 'pybufrkit decode %s failed: %r %s' % (flags, exc, se[:120]), spec)
             return
@@ -301,7 +302,7 @@ def cli_roundtrip(ctx, b, spec, scratch, tag):
         with open(txt, 'w') as f:
             f.write(so)
         dst = os.path.join(scratch, 'out_%s_%s.bufr' % (tag, name))
-        so2, se2, exc2, code2 = run_cli(['encode'] + flags + [txt, dst])
+        so2, se2, exc2, code2 = run_cli(prefix + ['encode'] + flags + [txt, dst])
         if exc2 is not None or se2.strip() or not os.path.exists(dst):
             ctx.violate('cli-encode-fails/%s:%s' % (name, type(exc2).__name__ if exc2 else 'stderr'),
                         'pybufrkit encode %s failed: %r %s' % (flags, exc2, se2[:160]), spec)
@@ -309,6 +310,21 @@ def cli_roundtrip(ctx, b, spec, scratch, tag):
         with open(dst, 'rb') as f:
             outs[name] = f.read()
     ctx.count('cli_roundtrips')
+    if prefix:
+        ctx.count('cli_roundtrips_with_tables_root_option')
+        # (a compressed reference message may use wider increments than the encoder would choose: bytes are only
+        # demanded for the uncompressed one, values for both)
+        same = outs['-j'] == b
+        if not same and spec.get('compressed'):
+            try:
+                from pybufrkit.decoder import Decoder
+                dalt = Decoder(tables_root_dir=prefix[1])
+                same = repr(td_of(dalt.process(outs['-j'])).decoded_values_all_subsets) == repr(td_of(dalt.process(b)).decoded_values_all_subsets)
+            except Exception:
+                same = False
+        if not same:
+            ctx.violate('cli-encode-differs/tables-root-option', 'pybufrkit -t <root> decode | encode does not reproduce a message '
+                        'made with those tables', spec)
     ref = outs['-j']
     for name, ob in outs.items():
         if ob != ref:
@@ -374,6 +390,13 @@ def run(ctx):
                 ctx.count('same_layout_cases')
                 check_message(ctx, m, enc, dict(origin='shape', shape=name, ids=msg.ids, compressed=False, nsub=nsub, hex=msg.bytes.hex()),
                               'u', msg.ids)
+        if ctx.shard % 4 == 1:
+            from mon.cli import alt_tables_root, alt_message
+            root = alt_tables_root(scratch)
+            for comp in (False, True):
+                am = alt_message(rng, root, nsub=2, compressed=comp)
+                cli_roundtrip(ctx, am.bytes, dict(origin='alt-tables', compressed=comp, hex=am.bytes.hex(), cli=True), scratch,
+                              'alt%d' % comp, prefix=['-t', root])
         # corpus
         files = corpus_files()
         if ctx.quick:
